@@ -1,6 +1,8 @@
 import DendroModel.Theory.C10Step
 import DendroModel.Theory.C10Bits
 import DendroModel.Theory.C10More
+import DendroModel.Theory.C10Ext
+import DendroModel.Theory.C10Esc
 /-! C10 — property theorems about the namespace state machine `DendroModel.C10.step` (the definitions the driver
 `drv_c10` runs).  `Aux.WInv w` is the invariant of a world: every namespace satisfies `Aux.Inv` (member list
 duplicate-free; members = keys of the taxon→index map; every index below the counter; the two index maps inverse
@@ -343,6 +345,57 @@ theorem nwk_op_text (w : World) (hw : WInv w) (n : Nat) (s : NS) (hs : w.nss[n]?
 example : (step (exec World.init [.mkns false [.lab "A", .lab "B", .lab "C"], .rm 0 0]) (.nwk 0 1 false true)).2
     matches .str "((), (B, C));" := by decide
 
+/-! ### which labels can share a NEXUS token -/
+
+/-- two labels with the same token agree once blanks and tabs are written as underscores (an unquoted NEXUS token
+cannot tell `c d` from `c_d`) -/
+theorem token_equivalence (ps qu : Bool) (a b : String) (h : escapeToken ps qu a = escapeToken ps qu b) :
+    a.toList.map blankToUs = b.toList.map blankToUs :=
+  escL_eq_imp ps qu _ _ ((escapeToken_eq_iff ps qu a b).1 h)
+
+/-- with `preserve_spaces=True` or `quote_underscores=True` (the default) the token determines the label -/
+theorem token_injective (ps qu : Bool) (hpq : ps = true ∨ qu = true) (a b : String)
+    (h : escapeToken ps qu a = escapeToken ps qu b) : a = b :=
+  String.toList_inj.1 (escL_inj ps qu hpq _ _ ((escapeToken_eq_iff ps qu a b).1 h))
+
+/-- whatever the flags, labels without blanks and tabs never share a token -/
+theorem token_injective_no_blank (ps qu : Bool) (a b : String) (ha : ' ' ∉ a.toList ∧ '\t' ∉ a.toList)
+    (hb : ' ' ∉ b.toList ∧ '\t' ∉ b.toList) (h : escapeToken ps qu a = escapeToken ps qu b) : a = b := by
+  have := token_equivalence ps qu a b h
+  rw [map_blank_id ha.1 ha.2, map_blank_id hb.1 hb.2] at this
+  exact String.toList_inj.1 this
+
+/-- the clash is real: without quoting of underscores `c d` and `c_d` are written alike -/
+example : escapeToken false false "c d" = escapeToken false false "c_d" ∧ escapeToken false true "c d" ≠ escapeToken false true "c_d" := by
+  decide
+
+/-- so, with `preserve_spaces` or `quote_underscores`, the rendering of the mask of a member list `S` names exactly the
+taxa of `S`: the only label lists whose tokens are the two groups are the labels of `S` and of the other members -/
+theorem newick_names_exactly (s : NS) (hi : Inv s) (lab : Nat → String) (S : List Nat) (hS : ∀ t ∈ S, t ∈ s.taxa) (m : Nat)
+    (hm : (s.taxaBitmask S 0).2 = .ok m) (ps qu : Bool) (hpq : ps = true ∨ qu = true) (hne : ¬ (m = 0 ∨ m = s.allMask))
+    (L R : List String)
+    (h : (s.newick lab m ps qu).2 = .ok (.sides (L.map (escapeToken ps qu)) (R.map (escapeToken ps qu)))) :
+    L = (s.taxa.filter (fun t => S.contains t)).map lab ∧ R = (s.taxa.filter (fun t => !S.contains t)).map lab := by
+  have inj : ∀ (l1 l2 : List String), l1.map (escapeToken ps qu) = l2.map (escapeToken ps qu) → l1 = l2 := by
+    intro l1
+    induction l1 with
+    | nil => intro l2 h; cases l2 with
+      | nil => rfl
+      | cons _ _ => simp at h
+    | cons x xs ih =>
+      intro l2 h
+      cases l2 with
+      | nil => simp at h
+      | cons y ys =>
+        simp only [List.map_cons, List.cons.injEq] at h
+        rw [token_injective ps qu hpq x y h.1, ih ys h.2]
+  rw [newick_spec s hi lab S hS m hm ps qu, if_neg hne] at h
+  have h' := Except.ok.inj h
+  simp only [Rendering.sides.injEq] at h'
+  constructor
+  · apply inj; rw [← h'.1]; simp [Function.comp_def]
+  · apply inj; rw [← h'.2]; simp [Function.comp_def]
+
 /-- `bitmask_as_bitstring`: read from the right, character `i` is `'1'` exactly when bit `i` of the mask is set (so,
 by `mask_roundtrip`, exactly at the bits of the taxa the mask was built from); the string is at least as long as the
 accession counter, so every member has a position -/
@@ -555,6 +608,31 @@ example : ∃ s', (exec World.init [.mkns false [.lab "A"], .setMut 0 false, .ne
 
 /-! ## the constructor -/
 
+/-- the constructor over a *mixed* iterable of label strings and existing `Taxon` objects: every string becomes a new
+taxon (labels appended to the world in order), every object is taken as it is, repeats of an object are ignored; the
+members are the items' taxa in item order without repeats, the `k`-th member gets bit `k`, the counter is the number of
+members; an iterable naming a `Taxon` that does not exist is refused -/
+theorem ctor_mixed_spec (w : World) (cs : Bool) (items : List Item) :
+    (items.all (Item.refOk w.labels.length) = true →
+      ∃ s', step w (.mkns cs items) = (⟨w.labels ++ labsOf items, w.nss ++ [s']⟩, .nat w.nss.length) ∧
+        s'.taxa = (ctorIds w.labels.length items).foldl (fun a t => if a.contains t then a else a ++ [t]) [] ∧
+        s'.count = s'.taxa.length ∧ (∀ k t, s'.taxa[k]? = some t → s'.t2a.get t = some k) ∧
+        s'.mutable_ = true ∧ s'.caseSens = cs) ∧
+    (items.all (Item.refOk w.labels.length) = false → step w (.mkns cs items) = (w, .bad)) := by
+  constructor
+  · intro hr
+    have hr' : (Op.mkns cs items).refsOk w.labels.length = true := by simpa [Op.refsOk] using hr
+    obtain ⟨a, b, c, d, e, f⟩ := ctorLoop_mixed items w (NS.empty cs) (inv_empty cs) (by simp [NS.empty]) rfl
+      (dense_empty cs) hr
+    refine ⟨(ctorLoop w (NS.empty cs) items).2, ?_, by simpa [NS.empty] using c, d.1, d.2, e, by simpa [NS.empty] using f⟩
+    rw [step_mkns w cs _ hr']; simp only [a, b]
+  · intro hr
+    exact step_bad (by simpa [Op.refsOk] using hr)
+
+example : (step (exec World.init [.mk "x"]) (.mkns false [.lab "a", .tax 0, .tax 0, .lab "b"])).1.nss.map
+    (fun s => (s.taxa, s.count, s.taxa.map s.t2a.get)) = [([1, 0, 2], 3, [some 0, some 1, some 2])] := by decide
+
+
 /-- `TaxonNamespace(labels, is_case_sensitive=cs)`: a new mutable namespace, appended to the world, whose members are
 one new taxon per label string, in order, the `k`-th with label `ls[k]` and bit `k`; the counter is the number of
 labels; existing namespaces and taxa are untouched -/
@@ -572,6 +650,296 @@ theorem ctor_labels_spec (w : World) (cs : Bool) (ls : List String) :
   · intro k hk; simpa [NS.empty] using e k hk
 
 example : (step World.init (.mkns true [.lab "x", .lab "X"])).1.nss.map (fun s => (s.taxa, s.count, s.caseSens)) = [([0, 1], 2, true)] := by
+  decide
+
+/-! ## coherence of `accession_index`, `taxon_bitmask` and its memo, over all histories -/
+
+/-- in every reachable world (whatever was added, removed, sorted, reversed, cleared, relabelled or copied before): the
+keys of the taxon→index map are exactly the members, the index→taxon map is its inverse, every index is below the counter -/
+theorem index_maps_coherent_reachable (ops : List Op) (s : NS) (hs : s ∈ (exec World.init ops).nss) :
+    (∀ t, t ∈ s.taxa ↔ ∃ i, s.t2a.get t = some i) ∧ (∀ t i, s.t2a.get t = some i ↔ s.a2t.get i = some t) ∧
+    (∀ t i, s.t2a.get t = some i → i < s.count) := by
+  have hi := (inv_reachable ops).ns s hs
+  refine ⟨fun t => ?_, hi.inverse, hi.lt⟩
+  rw [hi.dom t, Option.isSome_iff_exists]
+
+/-- … and every entry of the `taxon_bitmask` memo belongs to a current member and holds exactly `1 <<< accession_index` -/
+theorem memo_coherent_reachable (ops : List Op) (s : NS) (hs : s ∈ (exec World.init ops).nss) (t m : Nat)
+    (h : s.bm.get t = some m) : t ∈ s.taxa ∧ ∃ i, s.t2a.get t = some i ∧ m = 1 <<< i := by
+  have hi := (inv_reachable ops).ns s hs
+  obtain ⟨i, h1, h2⟩ := hi.memo t m h
+  exact ⟨(hi.dom t).2 (by simp [h1]), i, h1, h2⟩
+
+/-- the two observers agree: for a member `accession_index` answers `i` and `taxon_bitmask` answers `1 <<< i`; for a
+non-member both refuse (`KeyError`) -/
+theorem bm_acc_agree (w : World) (hw : WInv w) (n : Nat) (s : NS) (hs : w.nss[n]? = some s) (t : Nat) :
+    (t ∈ s.taxa → ∃ i, s.t2a.get t = some i ∧ step w (.acc n t) = (w, .nat i) ∧ (step w (.bm n t)).2 = .nat (1 <<< i)) ∧
+    (t ∉ s.taxa → step w (.acc n t) = (w, .err .keyError) ∧ (step w (.bm n t)).2 = .err .keyError) := by
+  have hi := hw.ns s (List.mem_of_getElem? hs)
+  constructor
+  · intro ht
+    obtain ⟨i, h1, h2⟩ := taxon_bitmask_spec s hi t ht
+    refine ⟨i, h1, ?_, ?_⟩
+    · rw [step_at rfl rfl hs]; simp [stepNs, h1]
+    · rw [step_at rfl rfl hs]
+      simp only [stepNs]
+      rcases hx : s.taxonBitmask t with ⟨s', r⟩
+      rw [hx] at h2; simp only at h2; subst h2
+      simp [exceptOut]
+  · intro ht
+    have hnone : s.t2a.get t = none := by
+      cases h : s.t2a.get t with
+      | none => rfl
+      | some i => exact absurd ((hi.dom t).2 (by simp [h])) ht
+    have hbm : s.bm.get t = none := by
+      cases h : s.bm.get t with
+      | none => rfl
+      | some m => obtain ⟨i, h1, _⟩ := hi.memo t m h; rw [hnone] at h1; cases h1
+    constructor
+    · rw [step_at rfl rfl hs]; simp [stepNs, hnone]
+    · rw [step_at rfl rfl hs]; simp [stepNs, NS.taxonBitmask, hbm, hnone, exceptOut]
+
+/-- the mask `taxon_bitmask` reports for a taxon is the same before and after any history during which it stays a member -/
+theorem mask_stable_history (ops : List Op) (w : World) (hw : WInv w) (n t : Nat)
+    (hmem : ∀ k, k ≤ ops.length → ∃ s, (exec w (ops.take k)).nss[n]? = some s ∧ t ∈ s.taxa) :
+    (step (exec w ops) (.bm n t)).2 = (step w (.bm n t)).2 := by
+  obtain ⟨s, hs, ht⟩ := hmem 0 (Nat.zero_le _)
+  obtain ⟨s', hs', ht'⟩ := hmem ops.length (Nat.le_refl _)
+  simp only [List.take_zero, exec] at hs
+  simp only [List.take_length] at hs'
+  have hst := bit_stable_history ops w hw n t hmem s s' hs hs'
+  obtain ⟨i, h1, _, h3⟩ := (bm_acc_agree w hw n s hs t).1 ht
+  obtain ⟨i', h1', _, h3'⟩ := (bm_acc_agree (exec w ops) (winv_exec hw ops) n s' hs' t).1 ht'
+  rw [hst, h1] at h1'; cases h1'
+  rw [h3, h3']
+
+example : (step (exec World.init [.mkns false [.lab "A", .lab "B", .lab "C"], .bm 0 1, .rm 0 0, .sort 0 true, .rev 0,
+    .new 0 "D", .relabel 1 "Z"]) (.bm 0 1)).2 matches .nat 2 := by decide
+
+/-! ## the remaining operations of the alphabet -/
+
+/-- `Taxon(label)`: a new object with that label, in no namespace -/
+theorem mk_spec (w : World) (l : String) :
+    step w (.mk l) = ({ w with labels := w.labels ++ [l] }, .id w.labels.length) := by
+  simp [step, Op.refsOk]
+
+/-- `taxon.label = l`: only the label of that one taxon changes — every namespace (members, order, bits, memo, counter)
+is untouched, in particular the namespaces that share the taxon -/
+theorem relabel_spec (w : World) (t : Nat) (l : String) :
+    (t < w.labels.length → step w (.relabel t l) = ({ w with labels := w.labels.set t l }, .ok) ∧
+      World.lab { w with labels := w.labels.set t l } t = l ∧
+      ∀ t', t' ≠ t → World.lab { w with labels := w.labels.set t l } t' = w.lab t') ∧
+    (¬ t < w.labels.length → step w (.relabel t l) = (w, .bad)) := by
+  constructor
+  · intro h
+    refine ⟨by simp [step, Op.refsOk, h], by simp [World.lab, h], ?_⟩
+    intro t' hne
+    have : t ≠ t' := fun e => hne e.symm
+    simp [World.lab, List.getD_eq_getElem?_getD, List.getElem?_set_ne this]
+  · intro h; simp [step, Op.refsOk, h]
+
+/-- `add_taxon` of an existing object: nothing happens for a member; an immutable namespace refuses a non-member and
+stays as it is; a mutable one appends it with the next fresh bit, leaving every other bit alone -/
+theorem add_spec (w : World) (hw : WInv w) (n : Nat) (s : NS) (hs : w.nss[n]? = some s) (t : Nat) (ht : t < w.labels.length) :
+    (t ∈ s.taxa → step w (.add n t) = (w, .ok)) ∧
+    (t ∉ s.taxa → s.mutable_ = false → step w (.add n t) = (w, .err .immutable)) ∧
+    (t ∉ s.taxa → s.mutable_ = true →
+      ∃ s', step w (.add n t) = (w.setNs n s', .ok) ∧ s'.taxa = s.taxa ++ [t] ∧ s'.t2a.get t = some s.count ∧
+        s'.count = s.count + 1 ∧ ∀ x, x ≠ t → s'.t2a.get x = s.t2a.get x) := by
+  have hi := hw.ns s (List.mem_of_getElem? hs)
+  have hr : (Op.add n t).refsOk w.labels.length = true := by simpa [Op.refsOk] using ht
+  have hcont : t ∉ s.taxa → s.contains t = false := by
+    intro h
+    cases hc : s.contains t with
+    | false => rfl
+    | true => exact absurd ((hi.dom t).2 ((contains_iff s t).1 hc)) h
+  refine ⟨?_, ?_, ?_⟩
+  · intro hm
+    have hc : s.contains t = true := (contains_iff s t).2 ((hi.dom t).1 hm)
+    rw [step_at hr rfl hs]; simp [stepNs, NS.addTaxon, hc, set_self hs]
+  · intro hm himm
+    rw [step_at hr rfl hs]; simp [stepNs, NS.addTaxon, hcont hm, himm]
+  · intro hm hmut
+    refine ⟨{ s with taxa := s.taxa ++ [t], a2t := s.a2t.put s.count t, t2a := s.t2a.put t s.count, count := s.count + 1 },
+      ?_, rfl, by simp [get_put_self], rfl, fun x hx => by simp [get_put_ne _ _ _ _ hx]⟩
+    rw [step_at hr rfl hs]; simp [stepNs, NS.addTaxon, hcont hm, hmut]
+
+/-- `add_taxa`: on a mutable namespace the listed objects join in list order, repeats and members ignored, old bits kept;
+on an immutable namespace nothing changes, and the call succeeds exactly when every listed taxon is already a member -/
+theorem add_taxa_spec (w : World) (hw : WInv w) (n : Nat) (s : NS) (hs : w.nss[n]? = some s) (ts : List Nat)
+    (hts : ∀ t ∈ ts, t < w.labels.length) :
+    (s.mutable_ = true → ∃ s', step w (.addTaxa n ts) = (w.setNs n s', .ok) ∧
+      s'.taxa = ts.foldl (fun a t => if a.contains t then a else a ++ [t]) s.taxa ∧
+      ∀ x i, s.t2a.get x = some i → s'.t2a.get x = some i) ∧
+    (s.mutable_ = false → (step w (.addTaxa n ts)).1 = w ∧
+      ((step w (.addTaxa n ts)).2 = .ok ↔ ∀ t ∈ ts, t ∈ s.taxa) ∧
+      ((step w (.addTaxa n ts)).2 = .ok ∨ (step w (.addTaxa n ts)).2 = .err .immutable)) := by
+  have hi := hw.ns s (List.mem_of_getElem? hs)
+  have hr : (Op.addTaxa n ts).refsOk w.labels.length = true := by
+    simp only [Op.refsOk, List.all_eq_true, decide_eq_true_eq]; exact hts
+  constructor
+  · intro hm
+    obtain ⟨a, b, c, _, _⟩ := addTaxa_mutable ts s hi hm
+    rcases hx : s.addTaxa ts with ⟨s', r⟩
+    rw [hx] at a b c; simp only at a b c; subst a
+    exact ⟨s', by rw [step_at hr rfl hs]; simp [stepNs, hx], b, c⟩
+  · intro hm
+    obtain ⟨a, b, c⟩ := addTaxa_immutable ts s hm
+    rcases hx : s.addTaxa ts with ⟨s', r⟩
+    rw [hx] at a b c; simp only at a b c; subst a
+    have hmem : (∀ t ∈ ts, s'.contains t = true) ↔ ∀ t ∈ ts, t ∈ s'.taxa := by
+      constructor
+      · intro h t ht; exact (hi.dom t).2 ((contains_iff s' t).1 (h t ht))
+      · intro h t ht; exact (contains_iff s' t).2 ((hi.dom t).1 (h t ht))
+    rw [step_at hr rfl hs]
+    cases r with
+    | none =>
+      have e1 : stepNs w n s' (.addTaxa n ts) = (w, .ok) := by simp [stepNs, hx, set_self hs]
+      rw [e1]
+      exact ⟨rfl, ⟨fun _ => hmem.1 (b.1 rfl), fun _ => rfl⟩, Or.inl rfl⟩
+    | some e =>
+      have e1 : stepNs w n s' (.addTaxa n ts) = (w, .err e) := by simp [stepNs, hx, set_self hs]
+      rw [e1]
+      rcases c with c | c
+      · cases c
+      · cases c
+        exact ⟨rfl, ⟨(fun h => by cases h), (fun h => by have := b.2 (hmem.2 h); cases this)⟩, Or.inr rfl⟩
+
+/-- `new_taxon`: refused on an immutable namespace (nothing changes); otherwise exactly one new taxon with that label,
+appended with the next fresh bit -/
+theorem new_spec (w : World) (hw : WInv w) (n : Nat) (s : NS) (hs : w.nss[n]? = some s) (l : String) :
+    (s.mutable_ = false → step w (.new n l) = (w, .err .immutable)) ∧
+    (s.mutable_ = true →
+      ∃ s', step w (.new n l) = (⟨w.labels ++ [l], w.nss.set n s'⟩, .id w.labels.length) ∧
+        s'.taxa = s.taxa ++ [w.labels.length] ∧ s'.t2a.get w.labels.length = some s.count ∧ s'.count = s.count + 1 ∧
+        ∀ t, t ≠ w.labels.length → s'.t2a.get t = s.t2a.get t) := by
+  have hi := hw.ns s (List.mem_of_getElem? hs)
+  constructor
+  · intro hm; rw [step_at rfl rfl hs]; simp [stepNs, newTaxon, hm, exceptOut]
+  · intro hm
+    have hfresh : s.contains w.labels.length = false := by
+      cases hc : s.contains w.labels.length with
+      | false => rfl
+      | true =>
+        have := hw.fresh s (List.mem_of_getElem? hs) _ ((hi.dom _).2 ((contains_iff s _).1 hc)); omega
+    refine ⟨{ s with taxa := s.taxa ++ [w.labels.length], a2t := s.a2t.put s.count w.labels.length,
+                     t2a := s.t2a.put w.labels.length s.count, count := s.count + 1 }, ?_, rfl, by simp [get_put_self], rfl,
+      fun t ht => by simp [get_put_ne _ _ _ _ ht]⟩
+    rw [step_at rfl rfl hs]
+    simp [stepNs, hm, newTaxon, NS.addTaxon, hfresh, World.setNs, exceptOut]
+
+/-- `new_taxa`: refused as a whole on an immutable namespace; otherwise one new taxon per label, in order, appended with
+consecutive fresh bits, the old bits untouched; the call returns the new taxa in order -/
+theorem new_taxa_spec (w : World) (hw : WInv w) (n : Nat) (s : NS) (hs : w.nss[n]? = some s) (ls : List String) :
+    (s.mutable_ = false → step w (.newTaxa n ls) = (w, .err .immutable)) ∧
+    (s.mutable_ = true →
+      ∃ s', step w (.newTaxa n ls) =
+          (⟨w.labels ++ ls, w.nss.set n s'⟩, .ids ((List.range ls.length).map (w.labels.length + ·))) ∧
+        s'.taxa = s.taxa ++ (List.range ls.length).map (w.labels.length + ·) ∧ s'.count = s.count + ls.length ∧
+        (∀ k, k < ls.length → s'.t2a.get (w.labels.length + k) = some (s.count + k)) ∧
+        (∀ t, t < w.labels.length → s'.t2a.get t = s.t2a.get t)) := by
+  have hmem := List.mem_of_getElem? hs
+  constructor
+  · intro hm; rw [step_at rfl rfl hs]; simp [stepNs, hm]
+  · intro hm
+    obtain ⟨s', e, a, b, c, d, _, _⟩ := newTaxaLoop_spec n ls w s [] hs (hw.ns s hmem) (hw.fresh s hmem) hm
+    refine ⟨s', ?_, a, b, c, d⟩
+    rw [step_at rfl rfl hs]; simp [stepNs, hm, e]
+
+/-- `remove_taxon`: a non-member is refused (`ValueError`, nothing changes); a member leaves, the others keep their
+order and bits, the counter stays, and the memo forgets it -/
+theorem rm_spec (w : World) (n : Nat) (s : NS) (hs : w.nss[n]? = some s) (t : Nat) :
+    (t ∉ s.taxa → step w (.rm n t) = (w, .err .valueError)) ∧
+    (t ∈ s.taxa → ∃ s', step w (.rm n t) = (w.setNs n s', .ok) ∧ s'.taxa = s.taxa.filter (fun x => x ≠ t) ∧
+      s'.t2a.get t = none ∧ s'.bm.get t = none ∧ s'.count = s.count ∧ ∀ x, x ≠ t → s'.t2a.get x = s.t2a.get x) := by
+  constructor
+  · intro h; rw [step_at rfl rfl hs]; simp [stepNs, NS.removeTaxon, h]
+  · intro h
+    cases hr : s.removeTaxon t with
+    | error e => simp [NS.removeTaxon, h] at hr
+    | ok s1 =>
+      obtain ⟨_, e⟩ := removeTaxon_cases hr
+      refine ⟨s1, by rw [step_at rfl rfl hs]; simp [stepNs, hr], by rw [e], by rw [e]; exact get_erase_self _ _,
+        by rw [e]; exact get_erase_self _ _, by rw [e], fun x hx => by rw [e]; exact get_erase_ne _ _ _ hx⟩
+
+/-- `del tns[i]`: `IndexError` beyond the end, otherwise `remove_taxon` of the `i`-th member -/
+theorem del_spec (w : World) (n : Nat) (s : NS) (hs : w.nss[n]? = some s) (i : Nat) :
+    (s.taxa.length ≤ i → step w (.del n i) = (w, .err .indexError)) ∧
+    (∀ t, s.taxa[i]? = some t → step w (.del n i) = step w (.rm n t)) := by
+  constructor
+  · intro h; rw [step_at rfl rfl hs]; simp [stepNs, List.getElem?_eq_none h]
+  · intro t h; rw [step_at rfl rfl hs, step_at rfl rfl hs]; simp [stepNs, h]
+
+/-- `clear`: no members, empty maps and memo; the counter is *not* reset (so no bit is ever handed out twice), flags stay -/
+theorem clear_spec (w : World) (n : Nat) (s : NS) (hs : w.nss[n]? = some s) :
+    step w (.clear n) = (w.setNs n { s with taxa := [], a2t := [], t2a := [], bm := [] }, .ok) := by
+  rw [step_at rfl rfl hs]; simp [stepNs, NS.clear]
+
+/-- assigning `is_mutable` / `is_case_sensitive` changes that flag and nothing else -/
+theorem flags_spec (w : World) (n : Nat) (s : NS) (hs : w.nss[n]? = some s) (b : Bool) :
+    step w (.setMut n b) = (w.setNs n { s with mutable_ := b }, .ok) ∧
+    step w (.setCs n b) = (w.setNs n { s with caseSens := b }, .ok) := by
+  constructor <;> (rw [step_at rfl rfl hs]; simp [stepNs])
+
+/-- `taxa_bitmask(taxa=S)` followed by `bitmask_taxa_list`, as operations: for members `S` the first answers a mask `m`
+whose set bits are exactly the bits of `S`, and in the resulting world the second answers exactly the taxa of `S` -/
+theorem tbm_btl_ops_spec (w : World) (hw : WInv w) (n : Nat) (s : NS) (hs : w.nss[n]? = some s) (S : List Nat)
+    (hS : ∀ t ∈ S, t ∈ s.taxa) :
+    ∃ m L, (step w (.tbm n S)).2 = .nat m ∧ (step (step w (.tbm n S)).1 (.btl n m)).2 = .ids L ∧
+      (∀ t, t ∈ L ↔ t ∈ S) ∧ (∀ i, m.testBit i = true ↔ ∃ t ∈ S, s.t2a.get t = some i) := by
+  have hi := hw.ns s (List.mem_of_getElem? hs)
+  obtain ⟨s', m, L, e, eL, hL, hm⟩ := mask_roundtrip s hi S hS
+  have hlt : n < w.nss.length := (List.getElem?_eq_some_iff.1 hs).1
+  have h1 : step w (.tbm n S) = (w.setNs n s', .nat m) := by
+    rw [step_at rfl rfl hs]; simp [stepNs, e, exceptOut]
+  refine ⟨m, L, by rw [h1], ?_, hL, hm⟩
+  rw [h1]
+  have hs2 : (w.setNs n s').nss[n]? = some s' := by simp [World.setNs, hlt]
+  rw [step_at rfl rfl hs2]; simp [stepNs, eL, exceptOut]
+
+/-- what the code refuses, the model refuses: `taxa_bitmask` of a list containing a non-member and `bitmask_taxa_list`
+of a mask with a set bit that belongs to no current member (a removed taxon's bit, or a bit beyond the counter) are
+`KeyError`s -/
+theorem refusals_spec (w : World) (hw : WInv w) (n : Nat) (s : NS) (hs : w.nss[n]? = some s) :
+    (∀ S : List Nat, (∃ t ∈ S, t ∉ s.taxa) → (step w (.tbm n S)).2 = .err .keyError) ∧
+    (∀ m : Nat, (∃ i, m.testBit i = true ∧ s.a2t.get i = none) → step w (.btl n m) = (w, .err .keyError)) := by
+  have hi := hw.ns s (List.mem_of_getElem? hs)
+  constructor
+  · intro S hex
+    have := taxaBitmask_nonmember S s 0 hi hex
+    rw [step_at rfl rfl hs]
+    simp only [stepNs]
+    rcases hx : s.taxaBitmask S 0 with ⟨s', r⟩
+    rw [hx] at this; simp only at this; subst this
+    simp [exceptOut]
+  · intro m hex
+    obtain ⟨i, h1, h2⟩ := hex
+    have := btl_dead s.a2t m 0 ⟨i, h1, by rwa [Nat.zero_add]⟩
+    rw [step_at rfl rfl hs]; simp [stepNs, this, exceptOut]
+
+/-- the hypotheses are satisfiable: A,B with A removed — bit 0 of mask 3 is dead, and taxon 0 is no member any more -/
+example : ∃ w s, WInv w ∧ w.nss[0]? = some s ∧ (∃ i, (3 : Nat).testBit i = true ∧ s.a2t.get i = none) ∧ (∃ t ∈ [0, 1], t ∉ s.taxa) :=
+  ⟨exec World.init [.mkns false [.lab "A", .lab "B"], .rm 0 0], _, inv_reachable _, rfl, ⟨0, by decide, by decide⟩,
+    ⟨0, by decide, by decide⟩⟩
+
+/-- the pure observers `all_taxa_bitmask`, `bitmask_taxa_list`, `bitmask_as_bitstring`, `in`: their answer and no change -/
+theorem observers_spec (w : World) (n : Nat) (s : NS) (hs : w.nss[n]? = some s) (m t : Nat) :
+    step w (.all n) = (w, .nat ((1 <<< s.count) - 1)) ∧
+    step w (.btl n m) = (w, exceptOut .ids (btl s.a2t m 0)) ∧
+    step w (.bits n m) = (w, .str (String.ofList (s.bitstring m))) ∧
+    step w (.isIn n t) = (w, .bool (s.t2a.get t).isSome) := by
+  refine ⟨?_, ?_, ?_, ?_⟩ <;> (rw [step_at rfl rfl hs]; simp [stepNs, NS.allMask, NS.contains])
+
+/-- `t in tns` is membership in the ordered list (in every reachable state) -/
+theorem in_op_spec (w : World) (hw : WInv w) (n : Nat) (s : NS) (hs : w.nss[n]? = some s) (t : Nat) :
+    step w (.isIn n t) = (w, .bool (decide (t ∈ s.taxa))) := by
+  have hi := hw.ns s (List.mem_of_getElem? hs)
+  rw [(observers_spec w n s hs 0 t).2.2.2]
+  congr 2
+  rw [Bool.eq_iff_iff]; simp [hi.dom t]
+
+example : (exec World.init [.mkns false [.lab "a", .lab "b"], .setMut 0 false, .newTaxa 0 ["c"], .addTaxa 0 [0, 1],
+    .rm 0 0, .clear 0, .setMut 0 true, .new 0 "d"]).nss.map (fun s => (s.taxa, s.count, s.t2a.get 2)) = [([2], 3, some 2)] := by
   decide
 
 /-! ## (e) copies keep the bit of each original -/
@@ -602,6 +970,42 @@ theorem deepcopy_bits (w : World) (hw : WInv w) (n : Nat) (s : NS) (hs : w.nss[n
     constructor
     · exact get_renKeys (ren s w.labels.length) (fun t t' x h h' => ren_inj s _ h h') s.t2a _ _ hr
     · simp [World.lab, List.getD_eq_getElem?_getD, hk]
+
+/-! ## independence of namespaces (in particular of a copy and its original) -/
+
+/-- an operation that does not address namespace `n` leaves it exactly as it is — members, order, bits, memo, counter,
+flags.  (Only a relabel of a shared `Taxon` is seen by every namespace holding it, through the label store.)  So after
+`TaxonNamespace(other)`, `copy.copy` or `copy.deepcopy`, additions to and removals from one of the two never affect
+the other -/
+theorem other_namespaces_untouched (w : World) (op : Op) (n : Nat) (x : NS) (hx : w.nss[n]? = some x)
+    (hop : op.ns ≠ some n) : (step w op).1.nss[n]? = some x := by
+  have hlt : n < w.nss.length := (List.getElem?_eq_some_iff.1 hx).1
+  cases hr : op.refsOk w.labels.length with
+  | false => rw [step_bad hr]; exact hx
+  | true =>
+    cases hn : op.ns with
+    | none =>
+      cases op <;> simp [Op.ns] at hn
+      · simp only [step, hr]; exact hx
+      · rename_i cs items
+        rw [step_mkns w cs items hr]
+        have hr' : items.all (Item.refOk w.labels.length) = true := by simpa [Op.refsOk] using hr
+        obtain ⟨_, _, c, _⟩ := ctorLoop_spec items w (NS.empty cs) (inv_empty cs) (by simp [NS.empty]) hr'
+        simp only; rw [c, List.getElem?_append_left hlt]; exact hx
+      · rename_i t l
+        simp only [step]
+        by_cases h : t < w.labels.length
+        · simp only [hr, h]; exact hx
+        · simp only [hr, h]; exact hx
+    | some n' =>
+      have hne : n' ≠ n := fun e => hop (by rw [hn, e])
+      rw [step_ns hr hn]
+      cases hs : w.nss[n']? with
+      | none => exact hx
+      | some s => exact stepNs_frame hne hx op
+
+example : (exec World.init [.mkns false [.lab "A", .lab "B"], .deep 0, .rm 1 2, .new 1 "C", .sort 1 true, .clear 1]).nss[0]?.map
+    (fun s => (s.taxa, s.count)) = some ([0, 1], 2) := by decide
 
 /-! ## non-vacuity: the hypotheses are satisfiable, and the machine does what the example in the statement says -/
 
